@@ -87,6 +87,27 @@ Theorem C19_rename_param_involutive_partial : forall C x y c n,
 Proof. exact ren2_inverse. Qed.
 Print Assumptions C19_rename_param_involutive_partial.
 
+(* Several edits in ONE invocation (mro edit --rename X=Y --rename-output
+   Y.o=p --remove-unused-calls ...): the renames compose, each with the
+   renaming chosen on the program the earlier ones produced; an accepted pair
+   has the composed renamed call tree, then restricted by unused elements. *)
+Theorem C19_check_combo_sound : forall es a b t,
+  check_combo es false a b = 0%N ->
+  denote a = Some t ->
+  denote b = Some (apply_edits_tree es a t).
+Proof. exact check_combo_sound. Qed.
+Print Assumptions C19_check_combo_sound.
+
+Theorem C19_check_combo_removal_sound : forall es a b t,
+  check_combo es true a b = 0%N ->
+  denote a = Some t ->
+  exists a', apply_edits es a = Some a' /\
+    denote b = Some (rename_tree ren_none [] []
+                       (restrict_tree (diff_removed a' b) (apply_edits_tree es a t))) /\
+    unused_ok (diff_removed a' b) a' = true.
+Proof. exact check_combo_removal_sound. Qed.
+Print Assumptions C19_check_combo_removal_sound.
+
 (* ------------------------------------------------------------ non-vacuity *)
 
 (* stage S(in int x, out int y); pipeline P(in int x, out int y) { call S(x = self.x)
@@ -140,3 +161,13 @@ Example C19_roundtrip_nonvacuous :
   let b := rename_ast (go_renaming e ex_ast) ex_ast in
   check_roundtrip ex_ast (rename_ast (go_renaming (inverse e) b) b) = 0%N /\ b <> ex_ast.
 Proof. vm_compute. split; [reflexivity|discriminate]. Qed.
+
+(* rename S to NEW and, in the same request, its output y (named through the
+   new callable name) to z: the reference through the ALIAS T is rewritten *)
+Example C19_combo_nonvacuous :
+  let es := [RenameCallable (bs "S") (bs "NEW"); RenameOutput (bs "NEW") (bs "y") (bs "z")] in
+  exists b, apply_edits es ex_ast = Some b /\ check_combo es false ex_ast b = 0%N /\
+  option_map (fun p => match p with CPipeline p => pl_ret p | _ => None end) (nth_error (a_callables b) 1)
+    = Some (Some [mk_bind (bs "y") (ERef RefCall (bs "T") (bs "z")) ex_int]) /\
+  check_combo es false ex_ast (rename_ast (go_renaming (RenameCallable (bs "S") (bs "NEW")) ex_ast) ex_ast) = 3%N.
+Proof. eexists. vm_compute. repeat split; reflexivity. Qed.
